@@ -31,25 +31,31 @@ def mc_cfg(maxp, maxq, invs, alpha="full"):
 
 
 def model_check(res, pid, tier, single=SINGLE_INV, pair=PAIR_INV):
-    runs = [("single profile <=3 ballots, 8 contents x 3 weights", mc_cfg(3, 0, single), "mc_single"),
-            ("two profiles <=%d / <=2 ballots" % (2 if tier == "quick" else 3), mc_cfg(2 if tier == "quick" else 3, 2, pair), "mc_pair")]
-    for name, cfg, wd in runs:
-        r = run_tlc("MC_ProfileADT", cfg, os.path.join(OUT, pid, wd))
-        res.add_tlc("MC_ProfileADT " + name, r)
+    from concurrent.futures import ThreadPoolExecutor
+    runs = [("single profile <=3 ballots, 8 contents x 3 weights", mc_cfg(3, 0, single), "mc_single", 8),
+            ("two profiles <=2 / <=2 ballots, 8 contents x 3 weights", mc_cfg(2, 2, pair), "mc_pair", 16)]
+    if tier != "quick":
+        # (<=3 / <=2 over all 8 contents is 8.7 million states: 2.5 min on an idle 16-core machine, 22 min measured on a machine with load
+        #  average 250; the two runs below cover the same shapes in 1.2 million states)
+        runs += [("two profiles <=3 / <=2 ballots, 5 contents x 3 weights", mc_cfg(3, 2, pair, "small"), "mc_pair32", 16),
+                 ("two profiles <=3 / <=1 ballots, 8 contents x 3 weights", mc_cfg(3, 1, pair), "mc_pair31", 8)]
+    # negative controls: a ranking-keyed condense and a one-order tie expansion must be caught by the same kind of invariant
+    runs += [("control " + c, mc_cfg(2, 0, [c]), "mc_control_" + c, 2) for c in CONTROLS]
+    with ThreadPoolExecutor(max_workers=len(runs)) as ex:
+        results = list(ex.map(lambda x: run_tlc("MC_ProfileADT", x[1], os.path.join(OUT, pid, x[2]), workers=x[3]), runs))
+    caught = {}
+    for (name, cfg, wd, _), r in zip(runs, results):
         if r["hard"]:
-            raise Machinery("TLC failed on MC_ProfileADT: " + tlc_error_excerpt(r["out"]))
+            raise Machinery("TLC failed on MC_ProfileADT (%s): %s" % (name, tlc_error_excerpt(r["out"])))
+        if name.startswith("control "):
+            caught[name[8:]] = bool(r["violated"])
+            if not r["violated"]:
+                raise Machinery("negative control %s was not violated: the model cannot tell a wrong design from a right one" % name[8:])
+            continue
+        res.add_tlc("MC_ProfileADT " + name, r)
         if r["violated"]:
             res.violation("spec:MC_ProfileADT:%s" % r["violated"], "the value model violates %s" % r["violated"], {})
-    # negative controls: a ranking-keyed condense and a one-order tie expansion must be caught by the same invariants
-    caught = []
-    for c in CONTROLS:
-        r = run_tlc("MC_ProfileADT", mc_cfg(2, 0, [c]), os.path.join(OUT, pid, "mc_control"))
-        if r["hard"]:
-            raise Machinery("TLC failed on MC_ProfileADT control: " + tlc_error_excerpt(r["out"]))
-        caught.append(bool(r["violated"]))
-        if not r["violated"]:
-            raise Machinery("negative control %s was not violated: the model cannot tell a wrong design from a right one" % c)
-    res.notes["mc_negative_controls_violated"] = dict(zip(CONTROLS, caught))
+    res.notes["mc_negative_controls_violated"] = caught
 
 
 # ------------------------------------------------------------------------------------------------ corpus
@@ -200,6 +206,8 @@ def corpus(tier, seed):
             e2 = {"r": [], "s": [], "w": rng.choice(W3), "rk": "tuple"}
             bl = m + [e1, e2]
             rng.shuffle(bl)
+            if mixed_scored(bl):
+                continue
             inputs.append({"op": "condense", "orders": orders_of(rng, bl), "variant": "EmptyRepr"})
             inputs.append({"op": "eq", "L": bl, "R": m + [e1, dict(e2, rk="none")], "variant": "EmptyRepr"})
         for _ in range(40 if q else 400):
@@ -285,7 +293,8 @@ def run(tier, seed, replay=None):
     res = Result(PID, tier, seed)
     scratch(PID)
     res.rule = ("role 1: MC_ProfileADT -- every profile *sequence* of <=3 ballots over 8 contents (ranked, scored, both with the same ranking, neither, "
-                "tie, short, repeated candidate) x weights {1,2,1/2}, and every pair of such sequences (<=2/3 and <=2 ballots): condense distinct / "
+                "tie, short, repeated candidate) x weights {1,2,1/2}, and every pair of such sequences (<=2 and <=2 ballots; thorough also <=3/<=1 and, over "
+                "5 contents, <=3/<=2): condense distinct / "
                 "conserving / idempotent / independent of order, == iff same bag, + adds bags, removal conserves weight per image, tie expansion "
                 "preserves first-place, Borda and pairwise totals; three negative controls must be violated.  role 2: recorded operations of the "
                 "real code (Ballot(...) with int / Fraction / float weights and scores p/q, attribute assignment and deletion on ballots and "
